@@ -271,6 +271,32 @@ func (fv *FnV) lockBalanceAndOwnership() {
 			o.Static = "fails: no dominating wg.Add before the go statement"
 			o.Script = ""
 		}
+		// Done is reached on every path of the goroutine, also when the called function panics: it is deferred, or the body is straight-line code
+		deferred := false
+		for _, ins := range f.Blocks[0].Instrs {
+			if d, ok := ins.(*ssa.Defer); ok {
+				if sf := d.Common().StaticCallee(); sf != nil && sf.String() == "(*sync.WaitGroup).Done" {
+					deferred = true
+				}
+			}
+		}
+		straight := len(f.Blocks) == 1
+		if straight {
+			for _, ins := range f.Blocks[0].Instrs {
+				if c, ok := ins.(*ssa.Call); ok {
+					if sf := c.Common().StaticCallee(); sf == nil || !strings.HasPrefix(sf.String(), "(*sync.WaitGroup)") {
+						straight = false
+					}
+				}
+			}
+		}
+		okDone := deferred || straight
+		o2 := fv.emit(nil, "L", "done-on-every-path:"+fv.siteText(gs.Pos(), "call"), fv.lockProps(), map[bool]string{true: "true", false: "false"}[okDone],
+			"the goroutine signals wg.Done on every path (deferred first, or a body that only waits and signals)", gs.Pos())
+		if !okDone {
+			o2.Static = "fails: wg.Done is neither deferred nor the body straight-line wait/signal code; a panic or early return would leave Exec waiting forever"
+			o2.Script = ""
+		}
 	}
 }
 
